@@ -135,7 +135,12 @@ def check(case):
     before = snap("C05/input", tree)
     for node in M.constituents(before):
         if head_child(node) is None:
-            return None  # head marking did not give exactly one head: not this property's concern (C15)
+            if not mode.startswith("flags"):
+                # "after head marking": a marker that leaves a constituent without exactly one head child makes the
+                # documented pipeline marker -> boyd_split -> raising lose or keep the wrong material
+                raise violation("C05/%s/no-unique-head-after-marking" % mode, "constituent %s%r has no unique head child after the head marker"
+                                % (node["l"], M.nums(node)))
+            return None  # flags set directly by the generator, then moved by root_attach: not a head assignment any more
     degree = M.tree_gapdeg(before)
     sentence = M.sentence(before)
     labels = M.labels(before)
@@ -205,7 +210,8 @@ def check(case):
 def gen(ctx):
     quick = ctx.tier == "quick"
     edges = st.sampled_from(["HD", "NK", "SB", "--", "OA", "HD"])
-    labels = st.sampled_from(["S", "NP", "VP", "PP", "AP", "X"])
+    # categories whose head rules have every shape of the tables: several priority lists, both directions, empty lists
+    labels = st.sampled_from(["S", "NP", "VP", "PP", "AP", "X", "CO", "DL", "VZ", "CH", "ISU", "MPN"])
     pos = st.sampled_from(["NN", "VVFIN", "ART", "ADJA", "APPR", "$,"])
     base = S.tree_model(min_tokens=3, max_tokens=9 if quick else 14, disc=0.9, disc_step=0.8, edges=edges, labels=labels, pos=pos, max_arity=4)
 
